@@ -130,6 +130,7 @@ CHECKS = {
             H("bulk", "bulk_findif", args=[0], **{"hang-timeout": 30}),
             H("bulk", "bulk_findif", args=[1], **{"hang-timeout": 30}),
             H("bulk", "bulk_sched"),
+            H("bulk", "bulk_policy"),
         ],
     },
     "C01": {"harnesses": EXPR_SEQ_NR + [H("expr", "expr_d2", args=[r, 0, 1], weight=6, thorough_only=True) for r in EXPR_D2_ROOTS if r >= 18] + RACES + [
@@ -138,6 +139,7 @@ CHECKS = {
         "deadline": {"quick": 480, "thorough": 2400}},
     "C02": {"harnesses": [H("payload", "payload_adaptors")] + EXPR_CFAULT + EXPR_SEQ_NR + EXPR_SEQ_FAULTS + RACES + RACE_LVSS + [
         H("futures", "fut_v2", 3, 4, args=[0, 0]), H("futures", "fut_v2", 3, 4, args=[1, 0]), H("futures", "fut_faults"),
+        H("futures", "fut_payload_v2", 3, 4, args=[1], **{"cache-bits": 24}),
         H("cancel", "canc_detach", 3, 4, args=[0]), H("cancel", "canc_evt2", 2, 3), H("cancel", "canc_basic", 2, 3),
         H("scopes", "scope_v0", 3, 4, args=[0])],
         "deadline": {"quick": 480, "thorough": 3000}},
@@ -171,6 +173,8 @@ CHECKS = {
             H("futures", "fut_v1", 3, 4, args=[1, 0]),
             H("futures", "fut_v1", 3, 4, args=[2, 0]),
             H("futures", "fut_closed"),
+            H("futures", "fut_payload_v2", 3, 4, args=[0]), H("futures", "fut_payload_v2", 3, 4, args=[1], **{"cache-bits": 24}),
+            H("futures", "fut_payload_v1", 2, 3, args=[0], **{"cache-bits": 24}), H("futures", "fut_payload_v1", 3, 4, args=[1], **{"cache-bits": 24}),
             H("futures", "fut_ops", args=[5]), H("futures", "fut_ops", args=[6], thorough_only=True),
             H("futures", "fut_faults"),
             H("futures", "det_terminate"),
@@ -238,7 +242,7 @@ CHECKS = {
 # violation.  This is what sees a memory order weakened below what the algorithm needs when the interleaving itself stays
 # correct under sequential consistency.
 SEQUENTIAL = {"mtx_v2_ops", "evt_v2_ops", "evt_v1_ops", "fut_closed", "fut_faults", "det_terminate", "fut_ops", "sch_tramp", "tim_unsafe", "tim_clockmath", "ksim_conf", "uring_conf",
-              "bulk_findif", "bulk_sched", "expr_d1", "expr_d2", "expr_cfault", "expr_known_lvss", "expr_ctx", "payload_adaptors", "traits_corpus",
+              "bulk_findif", "bulk_sched", "bulk_policy", "expr_d1", "expr_d2", "expr_cfault", "expr_known_lvss", "expr_ctx", "payload_adaptors", "traits_corpus",
               "ctx_throwing_value", "strm_seq", "strm_sources", "coro_script", "coro_return_throws", "trace_chain", "any_storage", "any_unique_seq",
               "any_object_seq", "any_object_nt_seq"}
 TSAN_EXES = {"stop", "cancel", "mutexh", "events", "scopes", "futures", "sched", "races", "timers", "strmrace", "cororace", "ioep", "iour"}
